@@ -7,6 +7,8 @@ CONSTANTS
   Dev_drop = FALSE
   Dev_cryptv = FALSE
   Dev_mdstr = FALSE
+  Dev_osres = FALSE
+  Dev_cind = FALSE
   Dev_osrep = FALSE
   Dev_dparr = FALSE
 POSTCONDITION Consumed
